@@ -232,13 +232,22 @@ def cmp_c01y(case, i, m):
     return None
 
 
+C01_OPERATOR_THEOREMS = ["Acv.C01Operators.source_readable", "Acv.C01Operators.constraintSteps_eq", "Acv.C01Operators.parser_steps_regenerated",
+                         "Acv.C01Operators.keywords_nodup", "Acv.C01Operators.prop_operator_denotes", "Acv.C01Operators.prop_operator_total",
+                         "Acv.C01Operators.numeric_operator_denotes", "Acv.C01Operators.numeric_switch_total", "Acv.C01Operators.count_operator_denotes",
+                         "Acv.C01Operators.polarity", "Acv.C01Operators.keyword_operator", "Acv.C01Operators.keyword_operator_count"]
+
+
 def check_C01(ctx):
     broken = []
     try:
         build_harness()
+        run_extract()
     except Broken as b:
         return conclude(ctx, [b])
     broken += prove(ctx, "Acv.Props.C01Atoms", C01_THEOREMS + C01_ATOM_THEOREMS)
+    # keyword -> comparison, REGENERATED from ParseConstraint, the constructors and the three generators' switch / if statements
+    broken += prove(ctx, "Acv.Props.C01Operators", C01_OPERATOR_THEOREMS)
     broken += prove(ctx, "Acv.Props.FrontEnd", FRONTEND_THEOREMS)
     q = ctx.quick()
     plan = [("tt", 260 if q else 6000), ("graphcount", 120 if q else 3000), ("atoms", 120 if q else 3000), ("graph", 100 if q else 3000), ("scopes", 120 if q else 3000)]
@@ -258,7 +267,7 @@ def check_C01(ctx):
     ctx.coverage["rule"] = ("tt: random formulas (and/or/not/if/then/else, depth<=6, width<=4) over k<=5 classical atoms, graph = one target node per truth assignment (whole truth table per validation); "
                             "graphcount: random graphs, cardinality atoms over random paths, nested/atLeast/atMost/exactly; atoms: every atom kind alone and negated; graph: all atom kinds mixed; scopes: 2-3 nested/quantified constraints over different paths, each inside one of seven connective contexts, combined by or/and/not-and/not-or/if-then(-else) in shuffled operand order. "
                             "non-trivial = at least one node reported. Each stream is run a second time with the model side starting from the YAML node tree of the profile TEXT (front-end model: parser, path grammar, IRI expansion, rule tables)")
-    ctx.assumptions += ["per-atom Rego snippets are modelled by Atom.fails (tied by the atoms stream)",
+    ctx.assumptions += ["per-atom Rego snippets are modelled by Atom.fails (tied by the atoms stream); of each snippet only the deciding line's operator and polarity are regenerated from the source (C01Operators), the lines around it (path query, count, iteration) are observed",
                         "per-value atoms (in, pattern, lengths, numeric, datatype, property comparisons) are classical only on single-valued properties; on other graphs the check compares with the literal translator model (stream graph)"]
     return conclude(ctx, broken, trusted=TRUST_COMMON)
 
